@@ -12,5 +12,6 @@ PROPS = {
     "C10": [J("^TestC10Concurrent$", 60, 400, shards=6, race=True), J("^TestC10Serialisable$", 400, 3000, shards=8), J("^TestC10Snapshots$", 1500, 12000, shards=4)],
     "C11": [J("^TestC11PeerExpiry$", 2500, 20000, shards=8)],
     "C12": [J("^TestC12Lockstep$", 2500, 12000, shards=8), J("^TestC12LockstepOnDisk$", 1, 1200, shards=6, tier="thorough")],
+    "C13": [J("^TestC13Reopen$", 300, 2500, shards=6), J("^TestC13Crash$", 150, 700, shards=8), J("^TestC13ConcurrentReaders$", 60, 400, shards=2), J("^TestC13Migration$", 40, 250, shards=4)],
     "C19": [J("^TestC19", 3000, 40000, shards=8)],
 }
